@@ -303,14 +303,14 @@ func outLast() any                               { return nil }
 //@ modifies exec.lastGeneratedObjectID
 //@ ensures [C05] class: r2 != nil ==> errIs(r2, ErrExecution) || errIs(r2, ErrInvalid)
 //@ ensures [C14 C07 C05] bounds: r2 == nil ==> 0 <= r0 && r1 < arraySize
-//@ ensures [C07] strict-inrange: r2 == nil && !exec.ignoreStructuralErrors ==> r0 <= r1
+//@ ensures [C07] strict-inrange: r2 == nil && !exec.path.IsLax() ==> r0 <= r1
 //@ ensures [C14] operands: is[*ast.BinaryNode](node) && as[*ast.BinaryNode](node).Operator() == ast.BinarySubscript ==> ncalls(exec.getArrayIndex) >= 1 && ncalls(exec.getArrayIndex) <= 2 && (as[*ast.BinaryNode](node).Right() == nil ==> ncalls(exec.getArrayIndex) <= 1)
-//@ ensures [C14 C07] single-lax: ncalls(exec.getArrayIndex) == 1 && firstret[error](exec.getArrayIndex, 1) == nil && exec.ignoreStructuralErrors ==> r2 == nil && r0 == max(firstret[int](exec.getArrayIndex, 0), 0) && r1 == min(firstret[int](exec.getArrayIndex, 0), arraySize-1)
-//@ ensures [C14 C07] single-strict-ok: ncalls(exec.getArrayIndex) == 1 && firstret[error](exec.getArrayIndex, 1) == nil && !exec.ignoreStructuralErrors && firstret[int](exec.getArrayIndex, 0) >= 0 && firstret[int](exec.getArrayIndex, 0) < arraySize ==> r2 == nil && r0 == firstret[int](exec.getArrayIndex, 0) && r1 == r0
-//@ ensures [C14 C07] single-strict-error: ncalls(exec.getArrayIndex) == 1 && firstret[error](exec.getArrayIndex, 1) == nil && !exec.ignoreStructuralErrors && (firstret[int](exec.getArrayIndex, 0) < 0 || firstret[int](exec.getArrayIndex, 0) >= arraySize) ==> r2 != nil && errIs(r2, ErrVerbose)
-//@ ensures [C14 C07] range-lax: ncalls(exec.getArrayIndex) == 2 && firstret[error](exec.getArrayIndex, 1) == nil && callret[error](exec.getArrayIndex, 1) == nil && exec.ignoreStructuralErrors ==> r2 == nil && r0 == max(firstret[int](exec.getArrayIndex, 0), 0) && r1 == min(callret[int](exec.getArrayIndex, 0), arraySize-1)
-//@ ensures [C14 C07] range-strict-ok: ncalls(exec.getArrayIndex) == 2 && firstret[error](exec.getArrayIndex, 1) == nil && callret[error](exec.getArrayIndex, 1) == nil && !exec.ignoreStructuralErrors && firstret[int](exec.getArrayIndex, 0) >= 0 && firstret[int](exec.getArrayIndex, 0) <= callret[int](exec.getArrayIndex, 0) && callret[int](exec.getArrayIndex, 0) < arraySize ==> r2 == nil && r0 == firstret[int](exec.getArrayIndex, 0) && r1 == callret[int](exec.getArrayIndex, 0)
-//@ ensures [C14 C07] range-strict-error: ncalls(exec.getArrayIndex) == 2 && firstret[error](exec.getArrayIndex, 1) == nil && callret[error](exec.getArrayIndex, 1) == nil && !exec.ignoreStructuralErrors && (firstret[int](exec.getArrayIndex, 0) < 0 || firstret[int](exec.getArrayIndex, 0) > callret[int](exec.getArrayIndex, 0) || callret[int](exec.getArrayIndex, 0) >= arraySize) ==> r2 != nil && errIs(r2, ErrVerbose)
+//@ ensures [C14 C07] single-lax: ncalls(exec.getArrayIndex) == 1 && firstret[error](exec.getArrayIndex, 1) == nil && exec.path.IsLax() ==> r2 == nil && r0 == max(firstret[int](exec.getArrayIndex, 0), 0) && r1 == min(firstret[int](exec.getArrayIndex, 0), arraySize-1)
+//@ ensures [C14 C07] single-strict-ok: ncalls(exec.getArrayIndex) == 1 && firstret[error](exec.getArrayIndex, 1) == nil && !exec.path.IsLax() && firstret[int](exec.getArrayIndex, 0) >= 0 && firstret[int](exec.getArrayIndex, 0) < arraySize ==> r2 == nil && r0 == firstret[int](exec.getArrayIndex, 0) && r1 == r0
+//@ ensures [C14 C07] single-strict-error: ncalls(exec.getArrayIndex) == 1 && firstret[error](exec.getArrayIndex, 1) == nil && !exec.path.IsLax() && (firstret[int](exec.getArrayIndex, 0) < 0 || firstret[int](exec.getArrayIndex, 0) >= arraySize) ==> r2 != nil && errIs(r2, ErrVerbose)
+//@ ensures [C14 C07] range-lax: ncalls(exec.getArrayIndex) == 2 && firstret[error](exec.getArrayIndex, 1) == nil && callret[error](exec.getArrayIndex, 1) == nil && exec.path.IsLax() ==> r2 == nil && r0 == max(firstret[int](exec.getArrayIndex, 0), 0) && r1 == min(callret[int](exec.getArrayIndex, 0), arraySize-1)
+//@ ensures [C14 C07] range-strict-ok: ncalls(exec.getArrayIndex) == 2 && firstret[error](exec.getArrayIndex, 1) == nil && callret[error](exec.getArrayIndex, 1) == nil && !exec.path.IsLax() && firstret[int](exec.getArrayIndex, 0) >= 0 && firstret[int](exec.getArrayIndex, 0) <= callret[int](exec.getArrayIndex, 0) && callret[int](exec.getArrayIndex, 0) < arraySize ==> r2 == nil && r0 == firstret[int](exec.getArrayIndex, 0) && r1 == callret[int](exec.getArrayIndex, 0)
+//@ ensures [C14 C07] range-strict-error: ncalls(exec.getArrayIndex) == 2 && firstret[error](exec.getArrayIndex, 1) == nil && callret[error](exec.getArrayIndex, 1) == nil && !exec.path.IsLax() && (firstret[int](exec.getArrayIndex, 0) < 0 || firstret[int](exec.getArrayIndex, 0) > callret[int](exec.getArrayIndex, 0) || callret[int](exec.getArrayIndex, 0) >= arraySize) ==> r2 != nil && errIs(r2, ErrVerbose)
 //@ ensures [C14 C20 C08] operand-error: ncalls(exec.getArrayIndex) >= 1 && callret[error](exec.getArrayIndex, 1) != nil ==> r2 == callret[error](exec.getArrayIndex, 1)
 //@ atcall getArrayIndex assert [C14 C09] on-original-item: arg_value == value
 
